@@ -146,6 +146,9 @@ func TestVerifC22ALPS(t *testing.T) {
 			empty := ""
 			s.ALPN = &empty
 		}
+		if s.ALPSFirst = rapid.IntRange(0, 2).Draw(rt, "alps_before_alpn") == 0; s.ALPSFirst {
+			st.Class("ee-order:alps-before-alpn")
+		}
 		keys := vfCertKeysFor(o, VersionTLS13, "")
 		if len(keys) == 0 {
 			return
